@@ -306,6 +306,14 @@ func (t *Tpl) writeNode(w io.Writer, node *node, ctx *Ctx) (err error) {
 				return err
 			}
 			empty := raw == nil || raw == ""
+			if !empty {
+				// Strings and bytes taken by pointer may be empty as well.
+				if s, ok := ConvStr(raw); ok {
+					empty = len(s) == 0
+				} else if b, ok := ConvBytes(raw); ok {
+					empty = len(b) == 0
+				}
+			}
 			if len(node.ctxOK) > 0 {
 				ctx.SetStatic(byteconv.B2S(node.ctxOK), !empty)
 			}
